@@ -489,6 +489,28 @@ fn run_case_inner(line: &str) -> String {
             }
             braid_case(b)
         }
+        "bgrp" => {
+            // braid group operations: `bgrp <s1> <len1> <w1..> <s2> <w2..>`: inv of the first word, the product
+            // (MulAssign panics when the strand counts differ), and the closure of  w1 * w1^-1
+            let s1: usize = t[1].parse().unwrap();
+            let n1: usize = t[2].parse().unwrap();
+            let w1: Vec<i32> = t[3..3 + n1].iter().map(|x| x.parse().unwrap()).collect();
+            let s2: usize = t[3 + n1].parse().unwrap();
+            let w2: Vec<i32> = t[4 + n1..].iter().map(|x| x.parse().unwrap()).collect();
+            let mk = |s: usize, w: &Vec<i32>| Braid::new(s, w.iter().map(|&x| Generator::from(x)).collect());
+            let word = |b: &Braid| nonempty(b.elements().iter().map(|g| {
+                let i = g.index() as i32; if g.sign().is_positive() { i.to_string() } else { (-i).to_string() } }).collect::<Vec<_>>().join(","));
+            let (b1, b2) = (mk(s1, &w1), mk(s2, &w2));
+            let inv = b1.inv();
+            let prod = guarded(|| { let mut p = b1.clone(); p *= &b2; p });
+            let prod2 = guarded(|| &b1 * &b2);
+            let same = match (&prod, &prod2) { (Some(a), Some(b)) => word(a) == word(b) && a.strands() == b.strands(), (None, None) => true, _ => false };
+            if !same { return "FORMS-DIFFER".into(); }
+            let cancel = guarded(|| { let mut p = b1.clone(); p *= &inv; p });
+            format!("inv={}:{} len={} triv={} prod={} cancel={}", inv.strands(), word(&inv), inv.len(), b1.is_triv() as u8,
+                    prod.map(|p| format!("{}:{}", p.strands(), word(&p))).unwrap_or("P".into()),
+                    braid_case(cancel))
+        }
         "braidfrom" => {
             let w: Vec<i32> = t[1..].iter().map(|x| x.parse().unwrap()).collect();
             braid_case(guarded(|| Braid::from_iter(w.iter().cloned())))
@@ -659,6 +681,13 @@ fn main() {
                 let (strands, w) = if k % 5 == 0 { over_component_word(&mut r, strands.min(7), len.min(10)) } else { (strands, random_word(&mut r, strands, len)) };
                 let ws = w.iter().map(|x| x.to_string()).collect::<Vec<_>>().join(" ");
                 emit(&mut o, format!("braid {} {}", strands, ws));
+                if k % 3 == 0 && !w.is_empty() {
+                    // group operations on the same word and a second random word (every fourth with another strand count)
+                    let s2 = if k % 12 == 0 { strands + 1 } else { strands };
+                    let l2 = r.below(5) as usize;
+                    let w2: Vec<String> = (0..l2).map(|_| { let i = 1 + r.below(s2 as u64 - 1) as i64; (if r.bool() { i } else { -i }).to_string() }).collect();
+                    emit(&mut o, format!("bgrp {} {} {} {} {}", strands, w.len(), ws, s2, w2.join(" ")).split_whitespace().collect::<Vec<_>>().join(" "));
+                }
                 if k % 4 == 0 { emit(&mut o, format!("braidfrom {}", ws)); }
                 if k % 25 == 0 {
                     // strand count too small / too large, a zero letter
